@@ -6,6 +6,7 @@
 #include <string>
 #include <vector>
 #include <sstream>
+#include <locale>
 #include <prophy/endianness.hpp>
 #include <prophy/detail/message_impl.hpp>
 
@@ -71,6 +72,7 @@ struct message
     std::string print() const
     {
         std::stringstream ss;
+        ss.imbue(std::locale::classic());  /// the text does not depend on the program's global locale (digit grouping)
         message_impl<T>::print(*static_cast<const T*>(this), ss, 0);
         return ss.str();
     }
